@@ -27,6 +27,8 @@ def NoBt : Expr → Bool
   | .backtrack _ => false
   | .fail => true
   | .py _ => true
+  | .tagged e _ => NoBt e
+  | .optable pre o m post inf => NoBtList pre && NoBt o && NoBtList m && NoBtList post && NoBtList inf
 def NoBtList : List Expr → Bool
   | [] => true
   | x :: xs => NoBt x && NoBtList xs
@@ -302,6 +304,124 @@ theorem genLongestOpts_pos' (hr : RunOK len run) (needsErr : Bool) (bt : Nat) :
               simp only [NoBtList, Bool.and_eq_true] at hnb
               exact h2.2 hnb.2 a b (h1.2 hnb.1)⟩
 
+theorem NoBt_combineRows {xs : List Expr} {e : Expr} (h : combineRows xs = some e)
+    (hnb : NoBtList xs = true) : NoBt e = true := by
+  match xs, h with
+  | [x], h => simp [combineRows] at h; subst h; simpa [NoBtList] using hnb
+  | x :: y :: zs, h => simp [combineRows] at h; subst h; simpa [NoBt] using hnb
+
+theorem genOT_pos (hr : RunOK len run) (T : TableExprs) :
+    ∀ fuel ph st last r, genOT F run T fuel ph st last = some r →
+    (st.pos ≤ len → st.outerCp ≤ len → r.pos ≤ len) ∧
+    ((∀ e, T.prefixes = some e → NoBt e = true) → NoBt T.operands = true →
+      (∀ e, T.postfixes = some e → NoBt e = true) → (∀ e, T.infixes = some e → NoBt e = true) →
+      ∀ lo, lo ≤ st.pos → lo ≤ st.outerCp → lo ≤ r.pos) := by
+  intro fuel
+  induction fuel with
+  | zero => intro ph st last r h; simp [genOT] at h
+  | succ n ih =>
+    intro ph st last r h
+    cases ph with
+    | pre =>
+      simp only [genOT] at h
+      split at h
+      · exact ih _ _ _ _ h
+      · rename_i pe hpe
+        split at h
+        · simp at h
+        · rename_i r' hr'
+          have h1 := hr pe st.pos r' hr'
+          split at h
+          · split at h
+            · simp at h
+            · have h2 := ih _ _ _ _ h
+              exact ⟨fun hp hc => h2.1 (h1.1 hp) hc,
+                fun a b c d lo hlo hlc => h2.2 a b c d lo (Nat.le_trans hlo (h1.2 (a pe hpe))) hlc⟩
+          · have h2 := ih _ _ _ _ h
+            constructor
+            · intro hp hc
+              refine h2.1 ?_ hc
+              simp only; split <;> first | exact hp | exact h1.1 hp
+            · intro a b c d lo hlo hlc
+              refine h2.2 a b c d lo ?_ hlc
+              simp only; split <;> first | exact hlo | exact Nat.le_trans hlo (h1.2 (a pe hpe))
+    | operand =>
+      simp only [genOT] at h
+      split at h
+      · simp at h
+      · rename_i r' hr'
+        have h1 := hr T.operands st.pos r' hr'
+        split at h
+        · have h2 := ih _ _ _ _ h
+          exact ⟨fun hp hc => h2.1 (h1.1 hp) hc,
+            fun a b c d lo hlo hlc => h2.2 a b c d lo (Nat.le_trans hlo (h1.2 b)) hlc⟩
+        · split at h
+          · simp at h; subst h
+            exact ⟨fun hp _ => h1.1 hp, fun _ b _ _ lo hlo _ => Nat.le_trans hlo (h1.2 b)⟩
+          · split at h
+            · simp at h
+            · simp at h; subst h
+              exact ⟨fun _ hc => hc, fun _ _ _ _ lo _ hlc => hlc⟩
+    | post =>
+      simp only [genOT] at h
+      split at h
+      · have h2 := ih _ _ _ _ h
+        exact ⟨fun hp _ => h2.1 hp hp, fun a b c d lo hlo _ => h2.2 a b c d lo hlo hlo⟩
+      · rename_i pe hpe
+        split at h
+        · simp at h
+        · rename_i r' hr'
+          have h1 := hr pe st.pos r' hr'
+          split at h
+          · split at h
+            · simp at h
+            · split at h
+              · simp at h
+              · split at h
+                · simp at h
+                · have h2 := ih _ _ _ _ h
+                  exact ⟨fun hp hc => h2.1 (h1.1 hp) hc,
+                    fun a b c d lo hlo hlc => h2.2 a b c d lo (Nat.le_trans hlo (h1.2 (c pe hpe))) hlc⟩
+          · have h2 := ih _ _ _ _ h
+            constructor
+            · intro hp _
+              have : (if (flagsOf F pe).cps = true then st.pos else r'.pos) ≤ len := by
+                split <;> first | exact hp | exact h1.1 hp
+              exact h2.1 this this
+            · intro a b c d lo hlo _
+              have : lo ≤ (if (flagsOf F pe).cps = true then st.pos else r'.pos) := by
+                split <;> first | exact hlo | exact Nat.le_trans hlo (h1.2 (c pe hpe))
+              exact h2.2 a b c d lo this this
+    | inf =>
+      simp only [genOT] at h
+      split at h
+      · split at h
+        · simp at h
+        · simp at h; subst h; exact ⟨fun hp _ => hp, fun _ _ _ _ lo hlo _ => hlo⟩
+      · rename_i ie hie
+        split at h
+        · simp at h
+        · rename_i r' hr'
+          have h1 := hr ie st.pos r' hr'
+          split at h
+          · split at h
+            · simp at h
+            · split at h
+              · simp at h
+              · split at h
+                · simp at h
+                · simp at h; subst h; exact ⟨fun _ hc => hc, fun _ _ _ _ lo _ hlc => hlc⟩
+              · have h2 := ih _ _ _ _ h
+                exact ⟨fun hp hc => h2.1 (h1.1 hp) hc,
+                  fun a b c d lo hlo hlc => h2.2 a b c d lo (Nat.le_trans hlo (h1.2 (d ie hie))) hlc⟩
+          · split at h
+            · simp at h
+            · simp at h; subst h
+              constructor
+              · intro hp hc; simp only; split <;> first | exact hc | exact h1.1 hp
+              · intro _ _ _ d lo hlo hlc
+                simp only; split <;> first | exact hlc | exact Nat.le_trans hlo (h1.2 (d ie hie))
+
 end Sourcer
 
 namespace Sourcer
@@ -506,5 +626,26 @@ theorem gen_pos (P : Program) (inp : List Nat) (hm : MatcherBounded P) (hP : Rul
       · simp at h; subst h; exact ⟨fun h => h, fun _ => Nat.le_refl _⟩
     | fail => simp only [gen] at h; simp at h; subst h; exact ⟨fun h => h, fun _ => Nat.le_refl _⟩
     | py v => simp only [gen] at h; simp at h; subst h; exact ⟨fun h => h, fun _ => Nat.le_refl _⟩
+    | tagged x tag =>
+      simp only [gen] at h
+      split at h
+      · simp at h
+      · rename_i r' hr'
+        have h1 := ih x p r' hr'
+        split at h <;> (simp at h; subst h; exact ⟨h1.1, fun hnb => h1.2 (by simpa [NoBt] using hnb)⟩)
+    | optable pre operand mixfix post inf =>
+      simp only [gen] at h
+      have h1 := genOT_pos ih (tableExprs pre operand mixfix post inf) _ _ _ _ _ h
+      refine ⟨fun hp => h1.1 hp hp, fun hnb => ?_⟩
+      simp only [NoBt, Bool.and_eq_true] at hnb
+      obtain ⟨⟨⟨⟨n1, n2⟩, n3⟩, n4⟩, n5⟩ := hnb
+      refine h1.2 ?_ ?_ ?_ ?_ p (Nat.le_refl _) (Nat.le_refl _)
+      · intro e he; exact NoBt_combineRows (by simpa [tableExprs] using he) n1
+      · simp only [tableExprs]
+        cases mixfix with
+        | nil => simpa [combineRows] using n2
+        | cons m ms => simp [combineRows, NoBt, NoBtList, n2] ; simpa [NoBtList] using n3
+      · intro e he; exact NoBt_combineRows (by simpa [tableExprs] using he) n4
+      · intro e he; exact NoBt_combineRows (by simpa [tableExprs] using he) n5
 
 end Sourcer
